@@ -197,6 +197,30 @@ def run_evolve(shard) -> Result:
                 for d in diff_trees(bn, mi, tree, got):
                     res.violation("evolve", diff_signature(bn, d) + ["deleted" if not any(f.number == d.fi.number for f in omi.fields) else "kept"],
                                   f"{mi.full_name}: value changed through an older reader/writer: {d.short()}", w)
+                # the same trip over a size-delimited stream (two messages, so that a wrong size shows up)
+                try:
+                    import io
+
+                    import betterproto
+
+                    s1 = io.BytesIO()
+                    bpn.make(mi, tree).dump(s1, betterproto.SIZE_DELIMITED)
+                    bpn.make(mi, tree).dump(s1, betterproto.SIZE_DELIMITED)
+                    s1.seek(0)
+                    s2 = io.BytesIO()
+                    for _ in range(2):
+                        bo.bp_class(mi.full_name)().load(s1, betterproto.SIZE_DELIMITED).dump(s2, betterproto.SIZE_DELIMITED)
+                    s2.seek(0)
+                    for k in range(2):
+                        back2 = bn.bp_class(mi.full_name)().load(s2, betterproto.SIZE_DELIMITED)
+                        ds = diff_trees(bn, mi, tree, bpn.norm(mi, back2))
+                        for d in ds:
+                            res.violation("evolve-delimited", diff_signature(bn, d) + ["deleted" if not any(f.number == d.fi.number for f in omi.fields) else "kept"],
+                                          f"{mi.full_name}: value changed through an older reader/writer over a size-delimited stream (message #{k}): {d.short()}", w)
+                    res.note("evolve_delimited_roundtrips")
+                except Exception as ex:
+                    res.violation("evolve-delimited", ["raised:" + type(ex).__name__, "with-deleted-fields" if deleted else "same-fields"],
+                                  f"{mi.full_name}: newer->older->newer over a size-delimited stream raised {ex!r}", w)
                 try:
                     rv = refn.norm(mi, bn.ref_class(mi.full_name).FromString(re_))
                     for d in diff_trees(bn, mi, tree, rv):
